@@ -3,6 +3,7 @@ package ledger
 import (
 	"context"
 	"fmt"
+	"github.com/bartossh/Computantis/src/transaction"
 	"math/big"
 	"sort"
 	"strings"
@@ -41,8 +42,24 @@ func (m *Model) checkC07(i int, pre, post view) []common.Violation {
 	if len(pre.stored) > 0 {
 		m.counters["C07.repeated-truncations"]++
 	}
-	// nothing lost, content identical, readable by hash
-	for h, x := range pre.all() {
+	// nothing lost, content identical, readable by hash. All look-ups are made first and judged afterwards: what a
+	// look-up returned must still be intact after the later look-ups (results must not share storage buffers).
+	type looked struct {
+		h    [32]byte
+		x    accountant.Vertex
+		got  accountant.Vertex
+		err  error
+		tr   transaction.Transaction
+		terr error
+	}
+	var hs [][32]byte
+	for h := range pre.all() {
+		hs = append(hs, h)
+	}
+	sort.Slice(hs, func(a, b int) bool { return R.Name(hs[a]) < R.Name(hs[b]) })
+	var looks []looked
+	for _, h := range hs {
+		x := pre.all()[h]
 		px, ok := post.all()[h]
 		if !ok {
 			out = append(out, viol("C07", "C07.lookup", "C07.vertex-lost", fmt.Sprintf("node %d lost %s in truncation", i, R.Name(h)), nil))
@@ -51,13 +68,20 @@ func (m *Model) checkC07(i int, pre, post view) []common.Violation {
 		if !sameVertex(x, px) {
 			out = append(out, viol("C07", "C07.lookup", "C07.vertex-content-changed", fmt.Sprintf("node %d: content of %s changed in truncation", i, R.Name(h)), nil))
 		}
-		got, err := m.nodes[i].Book.ReadVertex(context.Background(), h)
-		if err != nil || !sameVertex(got, x) {
-			out = append(out, viol("C07", "C07.lookup", "C07.read-vertex-differs", fmt.Sprintf("node %d: ReadVertex(%s) after truncation: err=%v", i, R.Name(h), err), nil))
+		l := looked{h: h, x: x}
+		l.got, l.err = m.nodes[i].Book.ReadVertex(context.Background(), h)
+		l.tr, l.terr = m.nodes[i].Book.ReadTransactionByHash(context.Background(), x.Transaction.Hash)
+		looks = append(looks, l)
+	}
+	for _, l := range looks {
+		x := l.x
+		if l.err != nil || !sameVertex(l.got, x) {
+			out = append(out, viol("C07", "C07.lookup", "C07.read-vertex-differs", fmt.Sprintf("node %d: ReadVertex(%s) after truncation (judged after all look-ups were made): err=%v", i, R.Name(l.h), l.err), nil))
 		}
-		tr, err := m.nodes[i].Book.ReadTransactionByHash(context.Background(), x.Transaction.Hash)
-		if err != nil || tr.Hash != x.Transaction.Hash || tr.Spice != x.Transaction.Spice || tr.IssuerAddress != x.Transaction.IssuerAddress {
-			out = append(out, viol("C07", "C07.lookup", "C07.read-transaction-differs", fmt.Sprintf("node %d: ReadTransactionByHash(%s) after truncation: err=%v", i, R.TxLabels[x.Transaction.Hash], err), nil))
+		tr := l.tr
+		if l.terr != nil || tr.Hash != x.Transaction.Hash || tr.Spice != x.Transaction.Spice || tr.IssuerAddress != x.Transaction.IssuerAddress ||
+			string(tr.Data) != string(x.Transaction.Data) || string(tr.IssuerSignature) != string(x.Transaction.IssuerSignature) || string(tr.ReceiverSignature) != string(x.Transaction.ReceiverSignature) {
+			out = append(out, viol("C07", "C07.lookup", "C07.read-transaction-differs", fmt.Sprintf("node %d: ReadTransactionByHash(%s) after truncation (judged after all look-ups were made): err=%v", i, R.TxLabels[x.Transaction.Hash], l.terr), nil))
 		}
 	}
 	// the moved set is closed under ancestors and every moved vertex left the live DAG
